@@ -1048,9 +1048,12 @@ impl OutstationSession {
                 Some(LastValidRequest::new(seq, hash, response, None))
             }
             FragmentType::RepeatNonRead(hash, last_response) => {
-                // If we have a pending select, update the sequence number
-                if let Some(select) = &mut self.state.select {
-                    select.update_frame_id(info.id);
+                // If this is a retransmission of the pending SELECT, keep the pair adjacent
+                if request.header.function == FunctionCode::Select {
+                    if let (Some(select), Ok(objects)) = (&mut self.state.select, request.objects)
+                    {
+                        select.update_frame_id_on_repeat(seq, objects.hash(), info.id);
+                    }
                 }
 
                 // per the spec, we just echo the last response
@@ -1678,15 +1681,17 @@ impl OutstationSession {
             (result, cursor.written().len())
         };
 
-        // Record the select state
-        if let Ok(CommandStatus::Success) = result {
-            self.state.select = Some(SelectState::new(
+        // Record the select state. A SELECT that did not fully succeed cancels any earlier one.
+        self.state.select = if let Ok(CommandStatus::Success) = result {
+            Some(SelectState::new(
                 seq,
                 frame_id,
                 tokio::time::Instant::now(),
                 controls.hash(),
             ))
-        }
+        } else {
+            None
+        };
 
         // Calculate IIN and return response
         let mut iin = Iin::default();
